@@ -2,10 +2,12 @@
    and its specification (association list in first-insertion order).
    Executable definitions only; proofs are in Proofs/HashTblProofs.v.
 
-   Part 1 (Section Tbl) is generic in the key type, the key identity [keq]
-   (= "env.Compare(a,b) returns 0 without error"), the hash function [hcode]
-   (= HashExpression; ARBITRARY, so colliding codes are covered) and [unwrap]
-   (HashSet/HashGet replace a one-element array key [k] by k).
+   Part 1 (Section Tbl) is generic in the key type, the comparison [beq] used inside a bucket
+   (= "env.Compare(a,b) returns 0 without error"), the key identity [keq] used by the
+   specification and by HashDelete's walk over KeyOrder (in the code: same hash code AND
+   Compare = 0, see [kid] in part 2), the hash function [hcode] (= HashExpression; ARBITRARY,
+   so colliding codes are covered) and [unwrap] (HashSet/HashGet/HashGetDefault/HashDelete
+   replace a one-element array key [k] by k).
    Part 2 instantiates it with the concrete key shapes of the property's universe. *)
 From Coq Require Import List ZArith Bool.
 Import ListNotations.
@@ -19,6 +21,7 @@ Arguments Crash {A}.
 
 Section Tbl.
 Variables K V : Type.
+Variable beq : K -> K -> bool.
 Variable keq : K -> K -> bool.
 Variable hcode : K -> Z.
 Variable unwrap : K -> K.
@@ -53,14 +56,21 @@ Fixpoint b_put (bs : list (Z * bucket)) (h : Z) (b : bucket) : list (Z * bucket)
 
 Definition empty : tbl := {| buckets := []; korder := []; nkeys := 0 |}.   (* MakeHash *)
 
-(* hashutils.go:HashGetDefault  (None = the default value is returned) *)
-Definition hash_get_default (t : tbl) (key : K) : option V :=
+(* first pair of a bucket whose Head compares 0 with key *)
+Fixpoint b_get (b : bucket) (k : K) : option V :=
+  match b with [] => None | (k', v) :: r => if beq k' k then Some v else b_get r k end.
+
+(* the body of HashGetDefault after the unwrapping of the key *)
+Definition bucket_lookup (t : tbl) (key : K) : option V :=
   match b_find (buckets t) (hcode key) with
   | None => None
-  | Some arr => s_get arr key          (* first pair whose Head compares 0 with key *)
+  | Some arr => b_get arr key
   end.
 
-(* hashutils.go:HashGet  (None = error "has no field") *)
+(* hashutils.go:HashGetDefault  (None = the default value is returned) *)
+Definition hash_get_default (t : tbl) (key : K) : option V := bucket_lookup t (unwrap key).
+
+(* hashutils.go:HashGet  (None = error "has no field"); it unwraps, then HashGetDefault unwraps again *)
 Definition hash_get (t : tbl) (key : K) : option V := hash_get_default t (unwrap key).
 
 (* hashutils.go:HashSet *)
@@ -72,8 +82,8 @@ Definition hash_set (t : tbl) (key0 : K) (v : V) : tbl :=
                korder := korder t ++ [key]; nkeys := nkeys t + 1 |}
   | Some arr =>
     (* the loop has no break: every matching pair is overwritten *)
-    if existsb (fun p => keq (fst p) key) arr
-    then {| buckets := b_put (buckets t) h (map (fun p => if keq (fst p) key then (key, v) else p) arr);
+    if existsb (fun p => beq (fst p) key) arr
+    then {| buckets := b_put (buckets t) h (map (fun p => if beq (fst p) key then (key, v) else p) arr);
             korder := korder t; nkeys := nkeys t |}
     else {| buckets := b_put (buckets t) h (arr ++ [(key, v)]);
             korder := korder t ++ [key]; nkeys := nkeys t + 1 |}
@@ -83,18 +93,23 @@ Definition hash_set (t : tbl) (key0 : K) (v : V) : tbl :=
 Fixpoint remove_first {A : Type} (f : A -> bool) (l : list A) : list A :=
   match l with [] => [] | x :: r => if f x then r else x :: remove_first f r end.
 
-(* hashutils.go:HashDelete (the key is NOT unwrapped here) *)
-Definition hash_delete (t : tbl) (key : K) : tbl :=
+(* the body of HashDelete after the unwrapping of the key.  The walk over KeyOrder drops the
+   first entry that is the same key: [keq k key] is, in the code, "HashExpression(k) = hashval
+   and Compare(k, key) = 0" *)
+Definition delete_key (t : tbl) (key : K) : tbl :=
   let h := hcode key in
   match b_find (buckets t) h with
   | None => t
   | Some arr =>
-    if existsb (fun p => keq (fst p) key) arr
-    then {| buckets := b_put (buckets t) h (remove_first (fun p => keq (fst p) key) arr);
+    if existsb (fun p => beq (fst p) key) arr
+    then {| buckets := b_put (buckets t) h (remove_first (fun p => beq (fst p) key) arr);
             korder := remove_first (fun k => keq k key) (korder t);
             nkeys := nkeys t - 1 |}
     else t
   end.
+
+(* hashutils.go:HashDelete *)
+Definition hash_delete (t : tbl) (key : K) : tbl := delete_key t (unwrap key).
 
 (* hashutils.go:HashCountKeys *)
 Definition count_keys (t : tbl) : outcome Z :=
@@ -142,10 +157,10 @@ Definition entries (t : tbl) : list (K * V) :=
   flat_map (fun k => match hash_get t k with Some v => [(k, v)] | None => [] end) (korder t).
 
 (* hashutils.go:SexpHash.SexpString for TypeName "hash", ps = nil, not pretty:
-   "{" ++ concat (entry ++ " ") ; the last character is cut off iff len(hash.Map) > 0 ; ++ "}".
+   "{" ++ concat (entry ++ " ") ; the last character is cut off iff onKey > 0 ; ++ "}".
    Observation = (entries, is the last character cut off). *)
 Definition str_obs (t : tbl) : list (K * V) * bool :=
-  (entries t, match buckets t with [] => false | _ => true end).
+  (entries t, match entries t with [] => false | _ => true end).
 
 (* jsonmsgp.go:jsonHashHelper: n == 0 gives the short form; a KeyOrder key that does not resolve panics *)
 Fixpoint json_entries (t : tbl) (l : list K) : option (list (K * V)) :=
@@ -215,11 +230,11 @@ Arguments OSet {K V} k v.
 Arguments ODel {K V} k.
 
 (* ================================================================== *)
-(* Part 2: the concrete keys of the property's universe.
+(* Part 2: the concrete keys.
    atom  = int, char, symbol (by number), string (bytes);
-   key   = atom or array of atoms. *)
+   key   = atom, array of atoms [a b ..], or a one-element array holding an array of atoms [[a b ..]]. *)
 Inductive atom : Type := AInt (z : Z) | AChar (z : Z) | ASym (n : Z) | AStr (s : list Z).
-Inductive key : Type := KAtom (a : atom) | KArr (l : list atom).
+Inductive key : Type := KAtom (a : atom) | KArr (l : list atom) | KWrap (l : list atom).
 
 Fixpoint zlist_eqb (a b : list Z) : bool :=
   match a, b with
@@ -244,35 +259,43 @@ Fixpoint alist_eq (a b : list atom) : bool :=
   | x :: a', y :: b' => aeq x y && alist_eq a' b'
   | _, _ => false
   end.
-Definition keq (a b : key) : bool :=
+(* Compare = 0 on keys ([[..]] against [..]: the element pair array/atom is an error, array/array
+   of different nesting likewise) *)
+Definition ceq (a b : key) : bool :=
   match a, b with
   | KAtom x, KAtom y => aeq x y
   | KArr x, KArr y => alist_eq x y
+  | KWrap x, KWrap y => alist_eq x y
   | _, _ => false
   end.
 
-(* hashutils.go:HashSet / HashGet: a one-element array key is replaced by its element *)
+(* the unwrapping at the top of HashSet / HashGet / HashGetDefault / HashDelete:
+   a one-element array key is replaced by its element *)
 Definition unwrap (k : key) : key :=
-  match k with KArr [a] => KAtom a | _ => k end.
+  match k with KArr [a] => KAtom a | KWrap l => KArr l | _ => k end.
 
 (* hash/fnv New32 (FNV-1): h = h * 16777619 mod 2^32, then xor the byte *)
 Definition fnv32 (s : list Z) : Z :=
   fold_left (fun h b => Z.lxor ((h * 16777619) mod 4294967296) b) s 2166136261.
 
 (* hashutils.go:hashHelper on atoms; arrays are hashed by Blake2b of their printed form,
-   which is not modelled: [arrhash] is arbitrary *)
+   which is not modelled: [ah] is arbitrary *)
 Definition ahash (a : atom) : Z :=
   match a with AInt z => z | AChar z => z | ASym n => n | AStr s => fnv32 s end.
-Definition khash (arrhash : list atom -> Z) (k : key) : Z :=
-  match k with KAtom a => ahash a | KArr l => arrhash l end.
+Definition khash (ah : key -> Z) (k : key) : Z :=
+  match k with KAtom a => ahash a | _ => ah k end.
 
-(* keys for which equal-under-Compare implies equal printed form (hence equal Blake2b code):
-   atoms, and arrays that hold no char (an int and a char compare equal but print differently) *)
-Definition is_char (a : atom) : bool := match a with AChar _ => true | _ => false end.
-Definition key_ok (k : key) : bool :=
-  match k with KAtom _ => true | KArr l => negb (existsb is_char l) end.
+(* the key identity of the code: same hash code and Compare = 0
+   (HashDelete checks both on KeyOrder; inside a bucket all codes are equal anyway) *)
+Definition kid (ah : key -> Z) (a b : key) : bool := Z.eqb (khash ah a) (khash ah b) && ceq a b.
+
+(* every key except [[a]]: that one is unwrapped to [a] when stored and unwrapped AGAIN, to a,
+   when the stored key is looked up by SexpString / HashPairi / json *)
+Definition key_ok (k : key) : bool := match k with KWrap [_] => false | _ => true end.
 
 Definition ztbl := tbl key Z.
 Definition zop := op key Z.
-Definition zrun (ah : list atom -> Z) (ops : list zop) : ztbl := run key Z keq (khash ah) unwrap ops.
-Definition zs_run (ops : list zop) : spec key Z := s_run key Z keq unwrap ops.
+Definition zstep (ah : key -> Z) : ztbl -> zop -> ztbl := step key Z ceq (kid ah) (khash ah) unwrap.
+Definition zrun (ah : key -> Z) (ops : list zop) : ztbl := run key Z ceq (kid ah) (khash ah) unwrap ops.
+Definition zs_step (ah : key -> Z) := s_step key Z (kid ah) unwrap.
+Definition zs_run (ah : key -> Z) (ops : list zop) : spec key Z := s_run key Z (kid ah) unwrap ops.
